@@ -8,6 +8,7 @@ import (
 	"encoding/hex"
 	"encoding/json"
 	"fmt"
+	"io"
 	"math/rand"
 	"os"
 	"path/filepath"
@@ -62,6 +63,8 @@ type Run struct {
 	known        map[string]KnownFinding
 	replayN      int
 	exhaustive   bool
+	emit         io.Writer // child mode: forward observations to the parent
+	emitMu       sync.Mutex
 }
 
 type violation struct {
@@ -152,6 +155,10 @@ func (r *Run) Rand(stream string) *rand.Rand {
 // Eval counts one executed case. key is the canonical form used for distinct counting;
 // nontrivial says whether the case is non-trivial by the property's rule.
 func (r *Run) Eval(key string, nontrivial bool, sample any) {
+	if r.emit != nil {
+		r.send(childMsg{T: "eval", Key: key, NT: nontrivial}, sample)
+		return
+	}
 	r.mu.Lock()
 	defer r.mu.Unlock()
 	r.evaluations++
@@ -181,6 +188,10 @@ func (r *Run) Hit(clause string) { r.HitN(clause, 1) }
 
 // HitN counts n non-vacuous evaluations of an oracle clause.
 func (r *Run) HitN(clause string, n int64) {
+	if r.emit != nil {
+		r.hitBuf(clause, n)
+		return
+	}
 	r.mu.Lock()
 	r.clauseHits[clause] += n
 	r.mu.Unlock()
@@ -195,6 +206,10 @@ func (r *Run) Require(clause string, n int64) {
 
 // Count adds to a free-form counter reported in the evidence.
 func (r *Run) Count(name string, n int64) {
+	if r.emit != nil {
+		r.send(childMsg{T: "count", Key: name, N: n}, nil)
+		return
+	}
 	r.mu.Lock()
 	r.counters[name] += n
 	r.mu.Unlock()
@@ -219,6 +234,10 @@ func (r *Run) SetExhaustive(b bool) { r.exhaustive = b }
 
 // Inconclusive records a case that could not be decided (watchdog, checker timeout).
 func (r *Run) Inconclusive(reason string) {
+	if r.emit != nil {
+		r.send(childMsg{T: "inconc", Detail: reason}, nil)
+		return
+	}
 	r.mu.Lock()
 	if len(r.inconclusive) < 50 {
 		r.inconclusive = append(r.inconclusive, reason)
@@ -236,6 +255,10 @@ func (r *Run) IsKnown(id string) bool {
 // Violation records a violated clause with its witness and prints the VIOLATION line.
 // Only the first few violations get a replay file each.
 func (r *Run) Violation(clause, detail string, witness any) {
+	if r.emit != nil {
+		r.send(childMsg{T: "viol", Clause: clause, Detail: detail}, witness)
+		return
+	}
 	r.mu.Lock()
 	defer r.mu.Unlock()
 	if len(r.violations) >= 20 {
@@ -261,6 +284,10 @@ func (r *Run) Violation(clause, detail string, witness any) {
 // predicted shape. If id is listed in KNOWN_FINDINGS.txt it is reported as KNOWN-FINDING
 // (once), otherwise it is an ordinary violation.
 func (r *Run) Finding(id, clause, detail string, witness any) {
+	if r.emit != nil {
+		r.send(childMsg{T: "finding", ID: id, Clause: clause, Detail: detail}, witness)
+		return
+	}
 	r.mu.Lock()
 	kf, ok := r.known[id]
 	if ok {
@@ -420,4 +447,26 @@ func SelfExe() string {
 		return os.Args[0]
 	}
 	return p
+}
+
+// hitBuf batches clause hits in child mode (they are frequent); FlushHits sends them.
+func (r *Run) hitBuf(clause string, n int64) {
+	r.mu.Lock()
+	r.clauseHits[clause] += n
+	r.mu.Unlock()
+}
+
+// FlushHits forwards the buffered clause hits of a child to the parent (call before the child exits
+// and after every case, so that a later crash does not lose them).
+func (r *Run) FlushHits() {
+	if r.emit == nil {
+		return
+	}
+	r.mu.Lock()
+	hits := r.clauseHits
+	r.clauseHits = map[string]int64{}
+	r.mu.Unlock()
+	for c, n := range hits {
+		r.send(childMsg{T: "hit", Clause: c, N: n}, nil)
+	}
 }
